@@ -73,7 +73,7 @@ QUICK = [
     ("stoppaused", PRE + "SUB(S,T_MX) LOOP START(X) PAUSE(X) DRAIN STOP(X) DRAIN DEREG(X)" + END, SYMF, None),
     ("twosubs", "REG(S) REGF(X) REG(Y) START(S) START(Y) SUB(S,T_MS) SUB(Y,T_MS) SUB(Y,T_MX) LOOP START(X) DRAIN STOP(X)" + END, SYMF, None),
     ("beforeloop", PRE + "SUB(S,T_MS) START(X) LOOP" + END, SYMF, None),
-    ("tick", "REG(S) START(S) SUB(S,T_TK) SETTICK LOOP FIRE DISP DISP FIRE DISP" + END, SYM + ["tick period (uint64, != 0)"], None),
+    ("tick", "REG(S) START(S) SUB(S,T_TK) SETTICKC(5000000) LOOP FIRE DISP DISP FIRE DISP" + END, SYM + ["tick period (uint64, != 0)"], None),
     ("refuse", "REG(S) REG(X) REFUSE(X) START(S) " + BOTH + "LOOP START(X)" + END, SYM, None),
     ("blk.cycle", "REG(S) REGF(X) REG(Y) START(S) START(Y) " + BOTH + "BLOCK", SYMF,
      "B(0,PAUSE(X)) B(1,RESUME(X)) B(2,STOP(X)) B(3,QUIT)"),
